@@ -113,7 +113,7 @@ func genC10(seed uint64, run int, tier string) Scenario {
 	} else {
 		passPrompt = pick(r, sc.User+"@"+host+"'s password: ", "("+sc.User+"@"+host+") Password: ", "Password:")
 		phrasePrompt := "Enter passphrase for key '/home/" + sc.User + "/.ssh/id_ed25519': "
-		switch r.IntN(4) {
+		switch r.IntN(3) {
 		case 0:
 			round = []stage{{"phrase", phrasePrompt}}
 			if r.IntN(2) == 0 {
@@ -210,6 +210,15 @@ func genC10(seed uint64, run int, tier string) Scenario {
 			rep.Next = "exec"
 			if r.IntN(2) == 0 {
 				rep.Out = banner(r, "", 1) // motd line before the shell prompt
+				if r.IntN(2) == 0 {
+					// ... and the device takes a breath in the middle of it: what came so far is
+					// read on its own, without a prompt behind it
+					rep.Out = append(rep.Out, peer.Tok{S: nl + "Type help for a list of commands", Delay: Micro(sc.ReadDelayUS) * time.Duration(between(r, 2, 8))})
+					if r.IntN(3) != 0 {
+						// exactly two reads: what came before the breath, and everything after it
+						sc.Net.SegMode, sc.Net.LatMode, sc.ReadSize = "whole", "zero", 8192
+					}
+				}
 			}
 			if r.IntN(8) == 0 {
 				// a message of the day far longer than the prompt search depth: every byte of it
@@ -398,6 +407,10 @@ func runC10(env *Env, s Scenario) {
 		if !strings.HasPrefix(l.Mode, "login:") {
 			if l.Mode == "dead" && l.Line != "" {
 				env.Fail("credential-sent-without-prompt", "", "device received %q after it had stopped asking", l.Line)
+			}
+			if l.Mode != "dead" && len(l.Line) >= 6 && (l.Line == sc.Password || l.Line == sc.Passphrase) {
+				// the login is over: what arrives now is a command line, echoed and logged
+				env.Fail("credential-sent-to-the-shell", "", "the device's shell (%s) received a credential as a command line: %q", l.Mode, l.Line)
 			}
 
 			continue
